@@ -132,23 +132,6 @@ Proof.
   - specialize (IH H). destruct o; cbn; lia.
 Qed.
 
-Lemma slots_In (P : snode -> Prop) w : forall ch t c, slots P w t ch -> In (Some c) ch -> P c.
-Proof.
-  induction ch as [|o ch IH]; intros t c Hs Hin; [destruct Hin|].
-  cbn in Hs. destruct Hs as [Ho Hr]. destruct Hin as [H|H].
-  - subst o. apply Ho.
-  - eapply IH; eauto.
-Qed.
-
-Lemma slots_strengthen (P Q : snode -> Prop) w : forall ch t,
-  slots P w t ch -> (forall c, In (Some c) ch -> P c -> Q c) -> slots Q w t ch.
-Proof.
-  induction ch as [|o ch IH]; intros t Hs HQ; cbn in *; [exact I|].
-  destruct Hs as [Ho Hr]. split.
-  - destruct o; [|exact I]. destruct Ho. split; [assumption|]. apply HQ; auto.
-  - apply IH; [exact Hr|]. intros c Hc. apply HQ. right. exact Hc.
-Qed.
-
 (* ---------- one node ---------- *)
 Theorem dec_node_ser : forall lvl n fuel rest,
   wf lvl n -> bounded lvl n -> (lvl <= 8)%nat -> (height lvl n <= fuel)%nat ->
